@@ -258,8 +258,28 @@ def consume_ops(n, sz):
     return ops
 
 
-def cases_C03(tier, seed):
+def zst_lifecycle_cases():
+    """zero-sized elements *with* a destructor (kind `z`: the ledger counts destructor runs): code paths chosen by
+    `size_of::<T>() == 0` / `needs_drop` (seeded changes C03-I, C09-I: `Drop for Drain` returning early for ZSTs)"""
     cases = []
+    for n in (1, 2, 3, 4294967296, 18446744073709551615):
+        for nf in (0, 1):
+            for nb in range(0, 4):
+                sz = min(nf + nb, n)
+                pre = [f"case {n} z"] + ["push_front 0"] * nf + ["push_back 0"] * nb
+                ops = ["clear", "drop", "into_iter -", "into_iter F", "into_iter FB", "truncate_back 0",
+                       f"truncate_back {max(sz - 1, 0)}", f"truncate_front {max(sz - 1, 0)}", "pop_front", "pop_back"]
+                for a in range(sz + 1):
+                    for b in range(a, sz + 1):
+                        ops += [f"drain i{a} x{b} - drop", f"drain i{a} x{b} F drop", f"drain i{a} x{b} B drop",
+                                f"drain i{a} x{b} FB drop"]
+                for op in ops:
+                    cases.append(pre + [op, "len", "push_back 0", "pop_front", "drop"])
+    return cases
+
+
+def cases_C03(tier, seed):
+    cases = zst_lifecycle_cases()
     for n, st, sz in all_layouts(ns_for(tier)):
         pre = layout_prefix(n, st, sz)
         ops = [o for o in gen.mutator_ops(n, sz) if not o.startswith("swap ") and not o.startswith("drain")]
@@ -419,6 +439,9 @@ def cases_C08(tier, seed):
                     cases.append(pre + [f"range_mut {s} {e} " + "BF" * (maxl // 2 + 1), "drop"])
                 cases.append(pre + [f"range i{a} x{b} LFLCBLCFLDL", "drop"])
                 cases.append(pre + [f"range_mut i{a} x{b} LFLBLFLDL", "drop"])
+        for op in (f"range x{MAX} u FL", f"range_mut x{MAX} u FL", f"range u i{MAX} FL", f"range_mut u i{MAX} BL",
+                   f"range i{MAX} u F", f"range_mut u x{MAX} B"):
+            cases.append(pre + [op, "len", "drop"])
         for sc in gen.scripts('FB', min(sz + 2, 5)):
             cases.append(pre + [f"iter {sc}", "drop"])
             cases.append(pre + [f"iter_mut {sc}", "drop"])
@@ -428,7 +451,7 @@ def cases_C08(tier, seed):
 
 
 def cases_C09(tier, seed):
-    cases = []
+    cases = [c for c in zst_lifecycle_cases() if any(l.startswith("drain") for l in c)]
     for n, st, sz in all_layouts(ns_for(tier)):
         pre = layout_prefix(n, st, sz)
         for a in range(sz + 1):
@@ -572,6 +595,11 @@ def cases_C13(tier, seed):
             if sz:
                 ops.append("eq_slice " + " ".join(str(v) for v in (list(word[:-1]) + [3 - word[-1]])))
             cases.append(pre2 + ops + ["drop"])
+    # primitive elements (bytes): `Hash::hash_slice` is one `write` call per slice for them, so hashing the two
+    # segments instead of the elements is visible to a hasher that sees the call boundaries — and only to it
+    for n, st, sz in list(all_layouts((1, 2, 3, 4))) + list(big_layouts(tier)):
+        cases.append([f"case {n} b"] + ["push_back 0", "pop_front"] * st + [f"push_back {1 + i % 5}" for i in range(sz)]
+                     + ["hash", "debug", "drop"])
     for n, st, sz in big_layouts(tier):         # same-capacity comparisons above the exhaustive scope
         word = [1 + (i * 7 % 3 > 0) for i in range(sz)]
         pre2 = [f"case {n} t"] + ["push_back 0", "pop_front"] * st + [f"push_back {v}" for v in word]
@@ -611,6 +639,18 @@ def cases_io(tier, seed, ns=None):
             for a in ops[::2]:
                 for b in ops[1::3]:
                     cases.append(pre + [a, b, "fill_buf", "read %d" % (n + 2)])
+    # capacities above the exhaustive scope, sampled layouts, argument lengths around 8 / 16 / 32 and the capacity
+    # (seeded change C14-I: a separate copy path for destinations of 16 bytes and more, wrong when wrapped)
+    if True:
+        for n in ((16, 64, 1000) if tier == "thorough" else (16, 64)):
+            for st in sorted({0, 1, n // 3, n - 5, n - 1}):
+                for sz in sorted({1, n // 2, n - 1, n}):
+                    pre = [f"case {n} b"] + ([f"write {st} 0", f"read {st}"] if st else []) + [f"write {sz} 100"]
+                    ops = [f"read {k}" for k in sorted({1, 7, 8, 9, 15, 16, 17, 31, 32, 33, n - 1, n, n + 1})]
+                    ops += [f"write {m} 200" for m in sorted({1, 8, 15, 16, 17, 32, 33, n - 1, n, n + 1, 2 * n + 1})]
+                    ops += [f"consume {k}" for k in sorted({1, 15, 16, 17, n - 1, n, n + 1})] + ["fill_buf"]
+                    for a in ops:
+                        cases.append(pre + [a, "fill_buf", "len", "read %d" % (n + 2)])
     rng = random.Random(seed + 14)
     for k in range(1500 if tier == "thorough" else 200):
         n = rng.choice([5, 8, 16, 64, 1000])
@@ -711,6 +751,24 @@ def cases_C20(tier, seed):
             for b in range(a, sz + 1):
                 ops.append(f"drain i{a} x{b} - drop")
                 ops.append(f"drain i{a} x{b} FB drop")
+        for op in ops:
+            cases.append(pre + [op, "len"])
+    # every layout of capacity 16 (thorough: 64 sampled too) for the O(1) operations: a "tidy up when almost empty /
+    # almost full" step (seeded change C20-I: `pop_front` calling `make_contiguous` when `size <= N / 4`) moves at
+    # most two elements on every capacity of the exhaustive scope
+    big = [(16, st, sz) for st in range(16) for sz in range(17)]
+    if tier == "thorough":
+        big += [(64, st, sz) for st in (0, 1, 21, 40, 59, 63) for sz in (0, 1, 2, 5, 15, 16, 17, 32, 48, 62, 63, 64)]
+    for n, st, sz in big:
+        pre = layout_prefix(n, st, sz)
+        ops = ["push_back 9", "push_front 9", "try_push_back 9", "try_push_front 9", "pop_back", "pop_front",
+               "as_mut_slices", "clear", "make_contiguous"]
+        for i in sorted({0, 1, sz // 2, sz - 1} - {-1}):
+            if i < sz:
+                ops += [f"swap_remove_back {i}", f"swap_remove_front {i}", f"remove {i}", f"swap {i} {sz - 1 - i}",
+                        f"truncate_back {i}", f"truncate_front {i}", f"get_mut {i}"]
+        if sz >= 2:
+            ops += [f"drain i1 x{sz - 1} - drop", f"drain i0 x{sz // 2} F drop"]
         for op in ops:
             cases.append(pre + [op, "len"])
     return cases
